@@ -61,10 +61,30 @@ def class_parse_entry_early_bound():
     edit('sourcer/expressions/class_.py', "                seq.program_id = self.extra_id\n                seq.compile(out, flags)",
          "                seq.program_id = self.extra_id\n                if len(self.members) == 1 and getattr(self.members[0].expr, 'is_reference', False) and self.members[0].expr._resolved and not self.members[0].expr.is_super:\n                    self.members[0].expr.is_local = True\n                    self.members[0].expr.name = self.members[0].expr._resolved\n                seq.compile(out, flags)")
 
+@mutant
+def derived_context_shared_between_siblings():
+    # "one derived context per parent": the second grammar that extends A re-uses the context object
+    # that the first one created -- A itself is untouched, the siblings see each other's rules
+    edit(T, "        out += Code('_ctx = _Context()')\n\n        if parsed.extends is not None:",
+         "        if parsed.extends is not None:\n            out += Code(\"_ctx = _super_ctx.__dict__.get('_derived') or _Context()\")\n            out += Code('_super_ctx._derived = _ctx')\n        else:\n            out += Code('_ctx = _Context()')\n\n        if parsed.extends is not None:")
+
+@mutant
+def sibling_overrides_recorded_on_parent_rule_objects():
+    # the names a derived grammar overrides are remembered on the parent's ParsingRule objects ("has
+    # overrides -> take the slow path"); a second derived grammar then treats them as overridden too
+    # and binds its inherited references to them to the first sibling's module when that is loaded
+    edit(T, "                    out += Code(f'_ctx.{impl_name} = _super_ctx.{impl_name}')\n                    visited_names.add(stmt.name)",
+         "                    out += Code(f'_ctx.{impl_name} = getattr(_super_ctx, \"_latest_{impl_name}\", _super_ctx.{impl_name})')\n                    visited_names.add(stmt.name)")
+    edit(T, "                out += Code(f'_ctx.{impl_name} = {impl_name}')\n                visited_names.add(rule.name)",
+         "                out += Code(f'_ctx.{impl_name} = {impl_name}')\n                if parsed.extends is not None:\n                    out += Code(f'_super_ctx._latest_{impl_name} = {impl_name}')\n                visited_names.add(rule.name)")
+
 if __name__ == '__main__':
     K.OUT = '/verif/mutants/C13'
     K.fresh()
+    only = sys.argv[1:]
     for name, f in K.MUTANTS.items():
+        if only and name not in only:
+            continue
         try:
             f(); K.save(name); print('wrote', name)
         except Exception as e:
